@@ -523,8 +523,11 @@ def check(prop, tier):
                 # with a harness passed: the property held on everything explored, *bounded only*
                 import cexsearch as _cx
                 m = _cx.load_map()
-                covered = all(any(_cx.harness_for(u, m)[0] for u in base.get(r['group'], {}).get('units', [])
-                                  if cfg['units'] == '*' or u in cfg['units']) for r in structural)
+                # every unit of the property in an undecided group needs a harness (its own or the one of
+                # the unit that calls it), otherwise the stand-in does not cover what could not be proved
+                AUX = {'Vnew', 'VRnew', 'Pnew', 'Bcontent'}   # constructors / accessor pasted into many groups
+                covered = all(all(_cx.harness_for(u, m)[0] for u in base.get(r['group'], {}).get('units', [])
+                                  if (cfg['units'] == '*' or u in cfg['units']) and u not in AUX) for r in structural)
                 ran_ok = bounded_runs and all(b.get('status') == 'none' for b in bounded_runs.values())
                 if covered and ran_ok:
                     exit_code = 0
